@@ -1,3 +1,6 @@
+// `sierradb_verif` is a verification-only cfg (never set in normal builds).
+#![allow(unexpected_cfgs)]
+
 use std::{
     borrow::Cow,
     collections::{BTreeMap, HashMap, HashSet},
@@ -403,6 +406,13 @@ impl Subscription {
         self.read_history(&mut matcher).await?;
 
         loop {
+            #[cfg(sierradb_verif)]
+            verif_hooks::point(
+                "sub.live.recv",
+                self.subscription_id,
+                "",
+                self.broadcast_rx.len() as u64,
+            );
             match self.broadcast_rx.recv().await {
                 Ok(record) => {
                     if matcher.has_seen(&record) {
@@ -439,6 +449,8 @@ impl Subscription {
     }
 
     async fn send_record(&mut self, record: EventRecord) -> Result<(), SubscriptionError> {
+        #[cfg(sierradb_verif)]
+        verif_hooks::point("sub.send.wait", self.subscription_id, "", self.cursor);
         self.last_ack_rx
             .wait_for(|last_ack| {
                 let gap = match last_ack {
@@ -523,6 +535,13 @@ impl Subscription {
             .read_partition(partition_id, *from_sequence, IterDirection::Forward)
             .await?;
         'iter: while let Some(commits) = iter.next_batch(DEFAULT_BATCH_SIZE).await? {
+            #[cfg(sierradb_verif)]
+            verif_hooks::point(
+                "sub.history.batch",
+                self.subscription_id,
+                &partition_id.to_string(),
+                commits.iter().map(|commit| commit.len() as u64).sum(),
+            );
             for commit in commits {
                 let Some(first_partition_sequence) = commit.first_partition_sequence() else {
                     continue;
@@ -598,6 +617,13 @@ impl Subscription {
                             partition_iters.remove(&partition_id);
                             continue;
                         };
+                        #[cfg(sierradb_verif)]
+                        verif_hooks::point(
+                            "sub.history.batch",
+                            self.subscription_id,
+                            &partition_id.to_string(),
+                            commits.iter().map(|commit| commit.len() as u64).sum(),
+                        );
 
                         for commit in commits {
                             let Some(first_partition_sequence) = commit.first_partition_sequence()
@@ -674,6 +700,8 @@ impl Subscription {
             .ok_or(SubscriptionError::PartitionWatermarkNotFound { partition_id })?
             .clone();
 
+        #[cfg(sierradb_verif)]
+        let verif_stream_id = stream_id.to_string();
         let mut iter = self
             .database
             .read_stream(
@@ -684,6 +712,13 @@ impl Subscription {
             )
             .await?;
         while let Some(commits) = iter.next_batch(DEFAULT_BATCH_SIZE).await? {
+            #[cfg(sierradb_verif)]
+            verif_hooks::point(
+                "sub.history.batch",
+                self.subscription_id,
+                &verif_stream_id,
+                commits.iter().map(|commit| commit.len() as u64).sum(),
+            );
             for commit in commits {
                 let Some(first_partition_sequence) = commit.first_partition_sequence() else {
                     continue;
@@ -762,6 +797,34 @@ impl From<mpsc::error::SendError<SubscriptionEvent>> for SubscriptionError {
 impl From<watch::error::RecvError> for SubscriptionError {
     fn from(_err: watch::error::RecvError) -> Self {
         SubscriptionError::ReceiverClosed
+    }
+}
+
+/// Verification hooks (only with `--cfg sierradb_verif`): a process-global callback invoked at
+/// the points where a subscription task is about to wait (window, live receive), after every
+/// history batch it fetched (the callback may block there: a pause point between batches), and
+/// when the confirmation actor finished an update-and-broadcast.
+#[cfg(sierradb_verif)]
+pub mod verif_hooks {
+    use std::sync::{Arc, RwLock};
+
+    use uuid::Uuid;
+
+    /// (point name, subscription id or nil, key, value)
+    pub type PointFn = Arc<dyn Fn(&'static str, Uuid, &str, u64) + Send + Sync>;
+
+    static POINT: RwLock<Option<PointFn>> = RwLock::new(None);
+
+    /// Install (or remove) the callback.
+    pub fn set_point(f: Option<PointFn>) {
+        *POINT.write().unwrap_or_else(|e| e.into_inner()) = f;
+    }
+
+    pub(crate) fn point(name: &'static str, subscription_id: Uuid, key: &str, value: u64) {
+        let f = POINT.read().unwrap_or_else(|e| e.into_inner()).clone();
+        if let Some(f) = f {
+            f(name, subscription_id, key, value);
+        }
     }
 }
 
